@@ -61,6 +61,11 @@ template<class L, class R, bool WithQuotient>
             // change are out of scope). elastic reps are specified by value (C05): every operand pair is in scope, whatever
             // signedness the library gives the result
             constexpr bool builtin_pair = cv::is_builtin_int<RepL> && cv::is_builtin_int<RepR>;
+            // (reps with an overflow layer: pairs whose exact quotient is outside the result rep are the layer's business, C06)
+            if (!builtin_pair && !cv::fits<RDiv>(a / b)) {
+                vf::skip_pre();
+                continue;
+            }
             bool pre = !builtin_pair || (cv::fits<RDiv>(a) && cv::fits<RDiv>(b) && cv::fits<RMod>(a) && cv::fits<RMod>(b) && !(has_lowest && a == cv::lowest_of<RDiv>() && b == Big(-1)));
             if (!pre)
                 vf::skip_pre();
@@ -140,6 +145,9 @@ using E15 = cnl::elastic_integer<15>;
 using EU7 = cnl::elastic_integer<7, unsigned>;
 using EU15 = cnl::elastic_integer<15, unsigned>;
 using EU32 = cnl::elastic_integer<32, unsigned>;
+using OVS32 = cnl::overflow_integer<int, cnl::saturated_overflow_tag>;
+using OVS64 = cnl::overflow_integer<long long, cnl::saturated_overflow_tag>;
+using OVS8 = cnl::overflow_integer<signed char, cnl::saturated_overflow_tag>;
 using EU64 = cnl::elastic_integer<64, unsigned>;
 using E3 = cnl::elastic_integer<3>;
 using E31 = cnl::elastic_integer<31>;
